@@ -129,6 +129,14 @@ def group_roles(ctx):
             if b:
                 r['acc_new'] = n
                 keys.append(b['k'])
+            # normal form of the chained assignment: ``acc = stype(); tree[k] = acc``
+            b = match(n, '%s[$$k] = $acc' % r['tree'])
+            if b and 'acc_new' not in r:
+                gcfg0 = ctx.cfg(u)
+                if matches(deref(gcfg0, gcfg0.node_of(n), n.value), '%s()' % r.get('stype')):
+                    r['acc_new'] = n
+                    r.setdefault('acc', b['acc'])
+                    keys.append(b['k'])
     if keys:
         gcfg = ctx.cfg(u)
         ok = all(norm(k) == r['sid'] or norm(deref(gcfg, gcfg.node_containing(k), k)) == 'id(%s)' % spec for k in keys)
@@ -238,6 +246,14 @@ def item_loop(ctx):
     ctx.ob(ok, u, 'each item is evaluated against the grouping spec in this frame: %s' % [norm(e) for e in evs])
     st = stmt_of(evs[0]) if evs else None
     b = match(st, '$last, $ret = ($ret, $$ev)') if st is not None else None
+    if b is None and st is not None:
+        # the same as two statements: ``last = ret`` immediately before ``ret = <evaluation>``
+        b2 = match(st, '$ret = $$ev')
+        blk = lp.body
+        if b2 and st in blk and blk.index(st) > 0:
+            b1 = match(blk[blk.index(st) - 1], '$last = %s' % b2['ret'])
+            if b1:
+                b = {'last': b1['last'], 'ret': b2['ret']}
     ctx.ob(b is not None, u, 'the previous result is remembered: %s' % (norm(st) if st is not None else None))
     last, ret = (b['last'], b['ret']) if b else (None, None)
     stop = [n for n in ast.walk(lp) if isinstance(n, ast.If) and isinstance(n.test, ast.Compare) and sentinel_of(p, u, n.test.comparators[0]) == 'STOP']
@@ -331,9 +347,15 @@ def aggregator_shapes(ctx):
     ok = av is not None and any(matches(s_, '%s[0] += target' % av) for s_ in sts) and any(matches(s_, '%s[1] += 1' % av) for s_ in sts) \
         and matches(sts[-1], 'return %s[0] / %s[1]' % (av, av))
     ctx.ob(ok, u, 'Avg keeps [sum, count] and yields sum / count')
-    init = [n for n in ast.walk(u.node) if isinstance(n, ast.Assign) and any(isinstance(t, ast.Subscript) for t in n.targets)
-            and isinstance(n.value, ast.List)]
-    ctx.ob(len(init) == 1 and norm(init[0].value) == '[0.0, 0]', u, 'starting from [0.0, 0]')
+    acfg = ctx.cfg(u)
+    init = [n for n in ast.walk(u.node) if isinstance(n, ast.Assign) and any(
+        isinstance(t, ast.Subscript) and is_name(t.value, tree) for t in n.targets)]
+    vals = [norm(deref(acfg, acfg.node_of(n), n.value)) for n in init]
+    ctx.ob(vals == ['[0.0, 0]'], u, 'starting from a fresh [0.0, 0] (never from an input item): %s' % vals)
+    adds = [n for n in acfg.nodes if n.kind == 'stmt' and av and matches(n.ast, '%s[0] += %s' % (av, target))]
+    cnts = [n for n in acfg.nodes if n.kind == 'stmt' and av and matches(n.ast, '%s[1] += 1' % av)]
+    ok = len(adds) == 1 and len(cnts) == 1 and acfg.dominates(adds[0], cnts[0])
+    ctx.ob(ok, u, 'an item is counted only after it was added (an item whose addition fails leaves the bucket untouched)')
     u = ctx.unit('grouping.Limit.glomit')
     cfg = ctx.cfg(u)
     tv = None
